@@ -160,3 +160,53 @@ pub fn all_well_formed() -> Vec<Move> {
     }
     res
 }
+
+/// FEN of a raw board written by the HARNESS (not by the library's formatter): used to name an input in the
+/// write-ahead file before the library is asked anything about it.
+pub fn own_fen(r: &RawBoard) -> String {
+    let mut out = String::new();
+    for rank in 0..8 {
+        if rank > 0 {
+            out.push('/');
+        }
+        let mut run = 0;
+        for file in 0..8 {
+            let c = r.cells[rank * 8 + file].index();
+            if c == 0 {
+                run += 1;
+            } else {
+                if run > 0 {
+                    out.push_str(&run.to_string());
+                    run = 0;
+                }
+                out.push(b"PKNBRQpknbrq"[c - 1] as char);
+            }
+        }
+        if run > 0 {
+            out.push_str(&run.to_string());
+        }
+    }
+    out.push(' ');
+    out.push(if color_ix(r.side) == 0 { 'w' } else { 'b' });
+    out.push(' ');
+    let cr = r.castling.index();
+    if cr == 0 {
+        out.push('-');
+    } else {
+        for (bit, ch) in [(1usize, 'K'), (0, 'Q'), (3, 'k'), (2, 'q')] {
+            if cr & (1 << bit) != 0 {
+                out.push(ch);
+            }
+        }
+    }
+    out.push(' ');
+    match r.ep_source {
+        None => out.push('-'),
+        Some(c) => {
+            out.push((b'a' + (c.index() % 8) as u8) as char);
+            out.push(if color_ix(r.side) == 0 { '6' } else { '3' });
+        }
+    }
+    out.push_str(&format!(" {} {}", r.move_counter, r.move_number));
+    out
+}
